@@ -59,7 +59,9 @@ def run(full):
                 areas, addr = [], base
                 for s in szs:
                     addr += rnd.choice([16, 64, 0x10000])         # a gap (possibly into the next 64 KiB zone)
-                    areas.append((addr, bytes(rnd.getrandbits(8) for _ in range(s))))
+                    fill = rnd.choice(["random", "random", "random", "zero", "ff"])
+                    areas.append((addr, bytes(rnd.getrandbits(8) for _ in range(s)) if fill == "random"
+                                  else bytes([0 if fill == "zero" else 0xFF]) * s))
                     addr += s
                 for reclen in reclens:
                     for order in ([list(range(nareas)), list(reversed(range(nareas)))] if nareas > 1 else [[0]]):
